@@ -220,6 +220,8 @@ Proof.
   destruct (existsb (fun m => negb (length (m_dist m) =? length (m_dur m))%nat) M) eqn:E1; [discriminate|].
   destruct (existsb (fun m => negb (rsqrt (length (m_dist m)) =? size)%nat) M) eqn:E2; [discriminate|].
   destruct (existsb (fun m => negb (rsqrt (length (m_dur m)) =? size)%nat) M) eqn:E3; [discriminate|].
+  destruct (existsb (fun m => negb (((length (m_dist m) =? size * size) && (length (m_dur m) =? size * size))%nat)) M) eqn:E4;
+    [discriminate|].
   intros H.
   assert (psize p = size) as Hsz.
   { destruct (existsb has_ts M).
@@ -230,6 +232,28 @@ Proof.
   - intros m Hm. pose proof (existsb_false _ _ E1 m Hm) as A1. pose proof (existsb_false _ _ E3 m Hm) as A3.
     cbn beta in A1, A3. apply negb_false_iff in A1, A3. apply Nat.eqb_eq in A1, A3. split; assumption.
   - destruct (existsb has_ts M); [left|right]; split; auto.
+Qed.
+
+(* since repair 17fc8e9: every accepted matrix has exactly size * size durations and distances *)
+Lemma build_ok_square M p : build M = Ok p ->
+  forall m, In m M -> length (m_dur m) = (psize p * psize p)%nat /\ length (m_dist m) = (psize p * psize p)%nat.
+Proof.
+  unfold build. destruct M as [|c0 rest]; [discriminate|].
+  set (M := c0 :: rest). set (size := rsqrt (length (m_dur c0))).
+  destruct (existsb (fun m => negb (length (m_dist m) =? length (m_dur m))%nat) M) eqn:E1; [discriminate|].
+  destruct (existsb (fun m => negb (rsqrt (length (m_dist m)) =? size)%nat) M) eqn:E2; [discriminate|].
+  destruct (existsb (fun m => negb (rsqrt (length (m_dur m)) =? size)%nat) M) eqn:E3; [discriminate|].
+  destruct (existsb (fun m => negb (((length (m_dist m) =? size * size) && (length (m_dur m) =? size * size))%nat)) M) eqn:E4;
+    [discriminate|].
+  intros H.
+  assert (psize p = size) as Hsz.
+  { destruct (existsb has_ts M).
+    - unfold build_aware in H. repeat (destruct (existsb _ _) in H; try discriminate). inversion H. reflexivity.
+    - unfold build_agnostic in H. destruct (existsb _ _) in H; try discriminate.
+      destruct (negb _) in H; try discriminate. inversion H. reflexivity. }
+  rewrite Hsz. intros m Hm. pose proof (existsb_false _ _ E4 m Hm) as A. cbn beta in A.
+  apply negb_false_iff in A. apply andb_true_iff in A. destruct A as [A1 A2].
+  apply Nat.eqb_eq in A1, A2. split; assumption.
 Qed.
 
 Lemma build_agnostic_inv M size p : build_agnostic M size = Ok p ->
@@ -272,6 +296,20 @@ Theorem inconsistent_rejected_partial M : ~ accepts_cond M -> exists e, build M 
 Proof.
   intros Hn. destruct (build M) as [p|e] eqn:E; [|exists e; reflexivity].
   exfalso. apply Hn. eapply build_ok_cond. exact E.
+Qed.
+
+(* the FULL clause (holds since repair 17fc8e9): whatever is accepted is a consistent matrix set *)
+Theorem build_ok_consistent M p : build M = Ok p -> consistent M.
+Proof.
+  intros H. destruct (build_ok_cond _ _ H) as [H0 [_ H2]].
+  split; [exact H0|]. split; [|exact H2].
+  exists (psize p). apply build_ok_square. exact H.
+Qed.
+
+Theorem inconsistent_rejected M : ~ consistent M -> exists e, build M = Err e.
+Proof.
+  intros Hn. destruct (build M) as [p|e] eqn:E; [|exists e; reflexivity].
+  exfalso. apply Hn. eapply build_ok_consistent. exact E.
 Qed.
 
 Theorem size_exact M p m n : build M = Ok p -> In m M -> length (m_dur m) = (n * n)%nat -> psize p = n.
@@ -470,13 +508,32 @@ Qed.
 (* ------------------------------------------------------------------ witnesses for the two deviations (findings) *)
 Definition bad_square_set : list matrix := [mkMz 0 None [1; 2; 3] [5; 6; 7]].
 
-Theorem inconsistent_rejected_refuted :
-  exists M p, ~ consistent M /\ build M = Ok p /\ psize p = 2%nat /\
-              duration p no_fallback 0 1%Q 1 1 0%Q = Panic.
+(* finding C16-F1, about the function as it was BEFORE repair 17fc8e9 (build_prefix); the repaired build rejects the set *)
+Theorem inconsistent_rejected_prefix_refuted :
+  exists M p, ~ consistent M /\ build_prefix M = Ok p /\ psize p = 2%nat /\
+              duration p no_fallback 0 1%Q 1 1 0%Q = Panic /\ build M = Err ENotSquare.
 Proof.
-  exists bad_square_set. eexists. split; [|split; [vm_compute; reflexivity|split; vm_compute; reflexivity]].
+  exists bad_square_set. eexists.
+  split; [|split; [vm_compute; reflexivity|split; [vm_compute; reflexivity|split; vm_compute; reflexivity]]].
   intros [_ [[n Hn] _]]. destruct (Hn _ (or_introl eq_refl)) as [E _]. cbn in E.
   destruct n as [|[|[|n]]]; cbn in E; lia.
+Qed.
+
+(* on square data of one size the repair changes nothing *)
+Lemma build_prefix_agrees M n :
+  (forall m, In m M -> length (m_dur m) = (n * n)%nat /\ length (m_dist m) = (n * n)%nat) -> build M = build_prefix M.
+Proof.
+  intros Hsq. unfold build, build_prefix. destruct M as [|c0 rest]; [reflexivity|].
+  set (M := c0 :: rest) in *. set (size := rsqrt (length (m_dur c0))).
+  assert (size = n) as Hs.
+  { unfold size. destruct (Hsq c0 (or_introl eq_refl)) as [E _]. rewrite E. apply rsqrt_square. }
+  destruct (existsb (fun m => negb (length (m_dist m) =? length (m_dur m))%nat) M); [reflexivity|].
+  destruct (existsb (fun m => negb (rsqrt (length (m_dist m)) =? size)%nat) M); [reflexivity|].
+  destruct (existsb (fun m => negb (rsqrt (length (m_dur m)) =? size)%nat) M); [reflexivity|].
+  destruct (existsb (fun m => negb (((length (m_dist m) =? size * size) && (length (m_dur m) =? size * size))%nat)) M) eqn:E4;
+    [|reflexivity].
+  exfalso. apply existsb_exists in E4. destruct E4 as [m [Hm A]]. destruct (Hsq m Hm) as [A1 A2].
+  rewrite Hs, A1, A2, Nat.eqb_refl in A. discriminate.
 Qed.
 
 Definition two_stamp_set : list matrix :=
